@@ -501,20 +501,30 @@ def writer_oracle(case, out):
     depth = w.depth()
     ms, mi, mspi = w.limit("max_samples"), w.limit("max_instances"), w.limit("max_spi")
     count = {}                     # instance -> samples a conforming writer holds
+    registered = set()             # instances the writer currently knows (an accepted unregister_instance frees the slot, not the samples)
     accepted = {}                  # instance -> values accepted
     by_index = {x["i"]: x for x in w.writes}
+    unreg_at = {u["i"]: u for u in w.unregs}
     look = {i: (k, o) for i, k, o in w.lookups}
     for i, l in enumerate(case.lines):
-        if i in by_index:
+        if i in unreg_at:
+            u = unreg_at[i]
+            if u["ans"] == "ok":
+                if u["key"] not in registered:
+                    viol.append({"what": f"op {i} `{l}` accepted for an instance the writer does not know", "at": i})
+                registered.discard(u["key"])
+            elif u["key"] in registered:
+                viol.append({"what": f"op {i} `{l}` answered {u['ans']} for a registered instance", "at": i})
+        elif i in by_index:
             x = by_index[i]
             k, ans = x["key"], x["ans"]
-            new = k not in count
+            new = k not in registered
             n_k = count.get(k, 0)
             if depth is not None and n_k == depth:
                 n_k -= 1                                   # KEEP_LAST replaces the oldest sample of the instance
             total = sum(count.values()) - (count.get(k, 0) - n_k)
             why = None
-            if new and mi is not None and len(count) >= mi:
+            if new and mi is not None and len(registered) >= mi:
                 why = "max_instances"
             elif mspi is not None and not (depth is not None and depth <= mspi) and n_k >= mspi:
                 why = "max_samples_per_instance"
@@ -523,12 +533,13 @@ def writer_oracle(case, out):
             if ans == "err:OutOfResources":
                 if why is None:
                     viol.append({"what": f"op {i} `{l}` answered OutOfResources although no limit would be exceeded "
-                                         f"(instances {len(count)}/{mi}, samples of the instance {n_k}/{mspi}, samples {total}/{ms})", "at": i})
+                                         f"(instances {len(registered)}/{mi}, samples of the instance {n_k}/{mspi}, samples {total}/{ms})", "at": i})
             elif ans == "ok":
                 if why is not None:
                     viol.append({"what": f"op {i} `{l}` was accepted although it exceeds {why} "
-                                         f"(instances {len(count)}/{mi}, samples of the instance {n_k}/{mspi}, samples {total}/{ms})", "at": i})
+                                         f"(instances {len(registered)}/{mi}, samples of the instance {n_k}/{mspi}, samples {total}/{ms})", "at": i})
                 count[k] = n_k + 1
+                registered.add(k)
                 accepted.setdefault(k, []).append(x["val"])
             else:
                 viol.append({"what": f"op {i} `{l}` answered {ans}", "at": i})
@@ -537,10 +548,10 @@ def writer_oracle(case, out):
         elif i in look:
             k, o = look[i]
             attempted = any(x["key"] == k and x["i"] < i for x in w.writes)
-            if k in count and o != f"ok h({k})":
+            if k in registered and o != f"ok h({k})":
                 viol.append({"what": f"op {i}: lookup_instance of the written instance {k} answered {o}", "at": i})
-            if k not in count and o != "ok none":
-                v = {"what": f"op {i}: lookup_instance({k}) answered {o} although no write to that instance was accepted", "at": i}
+            if k not in registered and o != "ok none":
+                v = {"what": f"op {i}: lookup_instance({k}) answered {o} although no write to that instance was accepted (since it was last unregistered)", "at": i}
                 if attempted and o == f"ok h({k})":
                     v["cause"] = "refused-write-registers-instance"
                 viol.append(v)
@@ -738,10 +749,13 @@ def gen_c19(r, long=False):
         g.reader({"reliability": "reliable", "history": "keep_all"})
     keys = [1, 2, 3, 4][: r.range(2, 4)]
     n = r.range(5, 14) * (3 if long else 1)
-    for k in range(n):
+    unreg = r.chance(1, 2)                # half of the cases also unregister instances: the slot of the instance is free again,
+    for k in range(n):                    # its samples stay in the history and keep counting towards max_samples (seeded C19_b)
         g.write(r.choice(keys))
         if r.chance(1, 4):
             g.op(f"lookup w {r.choice(keys + [9])}")
+        if unreg and r.chance(1, 5):
+            g.op(f"unregister w {r.choice(keys)}")
     for k in keys + [9]:
         g.op(f"lookup w {k}")
     g.drain(300 * MS)
